@@ -12,7 +12,7 @@ RULE = (
     "canonical encoder and entered into a run-wide bytes->entry-set map (injectivity); from_list(as_list) identity; get_obj for "
     "every prefix.  B (on disk): generated trees staged with checksum_jobs in {1,2,8}, >= 2 files above the large-file threshold "
     "in one directory (unordered parallel hashing path), _get_hashes with thresholds {0,1,2^21}, a LocalFileSystem whose walk "
-    "order is shuffled, state cold / warm / warm after touching files; every sub-directory compared with a direct build.  "
+    "order is shuffled, the directory named with a trailing separator, a filesystem whose reads fail once mid-file with a transient errno (staging must raise or give the canonical id, and the state must not remember a wrong one), state cold / warm / warm after touching files, the first staging materialised only after all other builds; every sub-directory compared with a direct build.  "
     "non-trivial = >= 2 entries; distinct = (entry set) resp. (tree, configuration)"
 )
 ASSUMPTIONS = [
@@ -20,7 +20,7 @@ ASSUMPTIONS = [
     "the parallel hashing path is reached by construction (two files larger than the threshold in one directory); its use is inferred from the inputs, not from an internal hook",
 ]
 MONITORS = "oid / bytes equality across permutations and configurations; independent canonical encoder; collision map"
-REQUIRED_COUNTERS = ["inode_only_swaps", "get_obj_after_add_histories", "state_warmed_under_other_algorithm", "permutations_checked", "sets_exhaustively_permuted", "disk_builds", "parallel_path_builds", "shuffled_walk_builds",
+REQUIRED_COUNTERS = ["digested_object_reread_after_other_digests", "late_materialisations", "flaky_read_builds", "inode_only_swaps", "get_obj_after_add_histories", "state_warmed_under_other_algorithm", "permutations_checked", "sets_exhaustively_permuted", "disk_builds", "parallel_path_builds", "shuffled_walk_builds",
                      "warm_state_builds", "prefix_objects_checked", "roundtrip_checks", "get_hashes_threshold_checks"]
 
 
@@ -46,6 +46,41 @@ def run_shard(ctx):
                 if isinstance(files, list):
                     self.rng.shuffle(files)
                 yield root, dirs, files
+
+    class _FlakyFile:
+        """file object whose k-th read() fails once with a transient errno"""
+
+        def __init__(self, f, fail_at, err):
+            self._f, self._fail_at, self._err, self._calls, self.fired = f, fail_at, err, 0, False
+
+        def read(self, n=-1):
+            self._calls += 1
+            if self._calls == self._fail_at and not self.fired:
+                self.fired = True
+                FlakyReadFS.fired += 1
+                raise OSError(self._err, "injected transient read error")
+            return self._f.read(n)
+
+        def __getattr__(self, name):
+            return getattr(self._f, name)
+
+        def __enter__(self):
+            return self
+
+        def __exit__(self, *a):
+            self._f.close()
+
+    class FlakyReadFS(LocalFileSystem):
+        rng = None
+        fired = 0
+
+        def open(self, path, mode="rb", **kwargs):
+            f = super().open(path, mode, **kwargs)
+            if "r" in mode and self.rng.random() < 0.7:
+                import errno as _e
+
+                return _FlakyFile(f, self.rng.choice([1, 2, 2, 3]), self.rng.choice([_e.EIO, _e.ESTALE, _e.ETIMEDOUT, _e.EAGAIN]))
+            return f
 
     def rmeta(rng):
         return Meta(size=rng.choice([None, 0, 5, 10**6]), isexec=rng.random() < 0.3, nfiles=rng.choice([None, 3]),
@@ -94,6 +129,18 @@ def run_shard(ctx):
                     res.violation("not-canonical-encoding", "bytes/oid differ from the independent canonical encoding",
                                   case=case, detail={"entries": listing, "got": b.decode("utf-8", "replace")[:300], "ref": ref_bytes.decode()[:300]})
                     break
+            # the object a digested tree points at still holds that tree's listing after other trees were digested
+            t0 = Tree()
+            for key, dg in items:
+                t0.add(key, rmeta(rng), HashInfo("md5", dg))
+            t0.digest()
+            other = Tree()
+            other.add(("unrelated-%d" % case,), rmeta(rng), HashInfo("md5", "%032x" % rng.getrandbits(128)))
+            other.digest()
+            res.count("digested_object_reread_after_other_digests")
+            if t0.fs.cat_file(t0.path) != ref_bytes:
+                res.violation("digested-object-overwritten-by-later-digest", "the serialised object of a digested tree no longer holds its listing after another tree was digested",
+                              case=case, detail={"entries": listing})
             # injectivity across the whole run
             fs_items = frozenset(items)
             prev = seen_bytes.setdefault(first[1], fs_items)
@@ -184,6 +231,11 @@ def run_shard(ctx):
                 legacy = env.local_odb(os.path.join(d, "legacy"), state=state, hash_name="md5-dos2unix")
                 build(legacy, p, env.localfs(), "md5-dos2unix", dry_run=True)
                 res.count("state_warmed_under_other_algorithm")
+            runs.append(("trailing-separator", odb_nostate, env.localfs(), rng.choice([1, 4])))
+            if big:
+                ffs = FlakyReadFS()
+                ffs.rng = rng
+                runs.append(("flaky-read", odb, ffs, rng.choice([1, 2])))
             runs.append(("state-cold", odb, env.localfs(), 2))
             runs.append(("state-warm", odb, sfs, 2))
             objs = []
@@ -194,7 +246,20 @@ def run_shard(ctx):
                     res.count("shuffled_walk_builds")
                 if label == "state-warm":
                     res.count("warm_state_builds")
-                _st, meta, obj = build(o, p, fs, "md5", checksum_jobs=jobs)
+                if label == "flaky-read":
+                    # a transient read error in the middle of a file: staging either fails loudly or gives the canonical id
+                    try:
+                        _st, meta, obj = build(o, p, fs, "md5", checksum_jobs=jobs)
+                        res.count("flaky_read_builds_returned")
+                    except OSError:
+                        res.count("flaky_read_builds_raised")
+                        continue
+                    finally:
+                        res.count("flaky_read_builds")
+                else:
+                    _st, meta, obj = build(o, p + os.sep if label == "trailing-separator" else p, fs, "md5", checksum_jobs=jobs)
+                if label == "jobs=1":
+                    first_staging = _st
                 objs.append(obj)
                 if obj.hash_info.value != ref:
                     res.violation(f"staging-config-dependent/{label.split('=')[0]}", f"staging with {label} gives {obj.hash_info.value}, canonical is {ref}",
@@ -202,6 +267,20 @@ def run_shard(ctx):
                 if meta.nfiles != len(files) or meta.size != sum(len(v) for v in files.values()):
                     res.violation("tree-meta-miscount", f"nfiles/size {meta.nfiles}/{meta.size} != {len(files)}/{sum(len(v) for v in files.values())}",
                                   case=case, detail={"label": label})
+            # the first staging is materialised only now, after all the other builds: the stored object must be its own listing
+            from dvc_data.hashfile.transfer import transfer as _transfer
+
+            late = env.local_odb(os.path.join(d, "late"))
+            build(odb_nostate, os.path.join(p, "crlf.txt"), env.localfs(), "md5")
+            sub0 = sorted({k[:1] for k in files if len(k) > 1})
+            if sub0:
+                build(odb_nostate, os.path.join(p, *sub0[0]), env.localfs(), "md5")
+            _transfer(first_staging, late, {objs[0].hash_info}, shallow=True)
+            res.count("late_materialisations")
+            with open(late.oid_to_path(ref), "rb") as f:
+                if f.read() != canonical_dir_bytes(listing):
+                    res.violation("late-materialised-object-differs", "a staged directory transferred after other directories were staged is stored with other bytes than its listing",
+                                  case=case, detail={"listing": listing})
             # warm after touching some files (content unchanged, token changed)
             touched = [k for k in files if rng.random() < 0.4]
             for k in touched:
